@@ -6,9 +6,10 @@ Space   : product-exhaustive.  Register size n; gate alphabet {X, H, Rz, CX, A2,
           one gate in `loop 2`, all gates in a macro with qubit and angle parameters, qubits written
           through an alias of a strided alias, angles given by lets with and without override, two
           adjacent gates on disjoint qubits in a parallel block in both branch orders, a
-          `subcircuit` block); the embedded section sits beside a plainly written *witness* section
-          (everything the embedded section executes except its final gate application), in both
-          orders, so every program has two subcircuits.
+          `subcircuit` block, the whole prepare/measure section inside `loop 2`); the embedded
+          section sits beside a plainly written *witness* section (everything the embedded section
+          executes except its final gate application), in both orders, so every program has two
+          subcircuits.
 Model   : a small interpreter of the AST (own let/alias/macro/loop evaluation: element i of
           `map a s[lo:hi:st]` is element lo + i*st of s, composed along the chain) gives the
           serialised gate list of each prepare/measure section; mc.ref.sim multiplies the
@@ -17,6 +18,11 @@ Oracle  : number of subcircuits; state_vector == reference within 1e-9; simulate
           == |amplitude|^2; differential chain: emulator state of the embedded section == F(last
           gate) applied to the emulator's *own* state of the witness section (for idle and
           unitary-less last gates: unchanged).
+Clauses : <kind>/<embedding family>, kind in state, neighbour-state, chain, probability,
+          subcircuit-count, shape, rejected, crash, non-termination.  A failure of an embedded
+          program is attributed to the embedding only when the plainly written program of the same
+          executed gates passes; otherwise it is reported once, as the plain family's failure.
+          Failures are reported on the locally minimal case (greedy descent over shrink()).
 """
 import itertools
 import re
@@ -700,13 +706,14 @@ class C03(Check):
         # over shrink(): thousands of failing programs of one family then name the same few inputs
         for clause, detail in fails:
             kind, fam = clause.split("/")
+            at = case
             if fam != "plain":
                 # not specific to the embedding when the plainly written program of the same executed
                 # gates fails the same way: then it is reported as the plain family's failure
                 pc = (case[0], "plain", 0, tuple(expected_expansion(case[1], case[3])))
                 if any(c == kind + "/plain" for c, _d in self._fails_of(pc)):
-                    clause, case = kind + "/plain", pc
-            small = self._minimise(clause, case)
+                    clause, at = kind + "/plain", pc
+            small = self._minimise(clause, at)
             if small != case:
                 detail = next(d for c, d in self._fails_of(small) if c == clause)
             ctx.fail(clause, detail, case=small)
